@@ -199,6 +199,9 @@ class Engine:
         """quick feasibility probe of pc + extra on the sequence-free over-approximation (never builds sequence models);
         only a definite 'unsat' prunes, anything else counts as feasible"""
         from .solve import abstract_check
+        import os
+        if os.environ.get('PYVC_NO_PRUNE'):
+            return True         # test knob: behave as if every feasibility probe had timed out (a very busy machine)
         return abstract_check(list(self.st.pc) + [extra], timeout_ms=300) != 'unsat'
 
     def branch(self, cond):
@@ -211,6 +214,7 @@ class Engine:
         v = self._branch(c)
         if getattr(self, 'in_body', False) and not getattr(self, 'in_spec', False):
             self.st.branches.add((getattr(self, 'cur_stmt_line', 0), v))      # for the branch-coverage vacuity guard
+            self.st.__dict__.setdefault('branch_pc', {}).setdefault((getattr(self, 'cur_stmt_line', 0), v), len(self.st.pc))
         return v
 
     def _branch(self, c):
